@@ -135,7 +135,8 @@ def clearedBy (nodes : Array Node) (top : Nat) (comments : Option Nat) : List Na
 
 /-- what is left in the pool-wide cache after `_clear_caches` -/
 def walkClear (nodes : Array Node) (top : Nat) (comments : Option Nat) (cache : Cache) : Cache :=
-  cache.filter fun e => !(clearedBy nodes top comments).contains e.1.1
+  let cl := clearedBy nodes top comments
+  cache.filter fun e => !cl.contains e.1.1
 
 /-- a `Match` object (`StrMatch`, `RegExMatch`, `EndOfFile`): `Match.parse` does not memoize.
 (A dangling index behaves the same: nothing is parsed, nothing stored.) -/
